@@ -303,7 +303,7 @@ def jobs(tier):
             for k in range(1, n + 1):
                 out.append((st, dt, ["v1", "v2p"] * (n // 2), False, compress, k, None, False))
     # a long stretch of steps without settings before the crash (size ladder)
-    for (n, k) in ([(120, 119)] if tier == "quick" else [(120, 119), (420, 400), (420, 421)]):
+    for (n, k) in ([(120, 119), (420, 400)] if tier == "quick" else [(120, 119), (420, 400), (420, 421)]):
         out.append((0, 1, ["v1"] + ["nobody"] * n, False, False, k, None, False))
         if n > 200:
             # (the same with settings changing twice in the early part of the history)
@@ -323,7 +323,9 @@ def _work(part):
 
 def run(ctx):
     js = core.rot(jobs(ctx.tier), ctx.seed * 31)
-    parts = core.chunks(js, core.nworkers() * 6)
+    # (the few histories of several hundred steps take ~20 s each: one part each, handed out first)
+    heavy = [j for j in js if len(j[2]) > 200]
+    parts = [[j] for j in heavy] + core.chunks([j for j in js if len(j[2]) <= 200], core.nworkers() * 6)
     res = core.pmap(_work, parts)
     crash_points = sum(1 for j in js if j[6] is None)
     torn = len(js) - crash_points
